@@ -902,12 +902,12 @@ func C14Child(mode, tier string, seed int64) {
 	}
 	res.ContextPairs = st.ctx.Count()
 	res.StringsRecheck = st.rechk.Load()
-	for _, p := range []string{"gocvss20", "gocvss30", "gocvss31", "gocvss40"} {
-		if v := expvar.Get("verifYield_" + p); v != nil {
-			n, _ := strconv.ParseInt(v.String(), 10, 64)
+	expvar.Do(func(kv expvar.KeyValue) {
+		if strings.HasPrefix(kv.Key, "verifYield_") {
+			n, _ := strconv.ParseInt(kv.Value.String(), 10, 64)
 			res.Yields += n
 		}
-	}
+	})
 	// collapse the per-rep config list
 	if len(res.Configs) > 8 {
 		res.Configs = append(res.Configs[:8], fmt.Sprintf("... %d configurations in total", len(res.Configs)))
